@@ -116,18 +116,8 @@ def r15a(chk, rid='R15.a'):
 
 
 def r15b(chk, rid='R15.b'):
-    chk.rule(rid, 'removing a namespace still used by a selector is rejected: in CSSStyleSheet.deleteRule the in-use test (last rule of a URI that _getUsedURIs reports) raises before - and dominates - the detaching and the deletion; _getUsedURIs scans style rules at sheet level and inside @media')
-    fn = chk.repo.fn(SHEET, 'CSSStyleSheet.deleteRule')
-    g = cfgmod.CFG(fn)
-    dele = [n for n in g.nodes if n.kind == 'stmt' and isinstance(n.stmt, ast.Delete) and '_cssRules[' in text(n.stmt)]
-    test = [n for n in g.nodes if n.kind == 'if' and 'NAMESPACE_RULE' in text(n.stmt.test)]
-    if len(dele) != 1 or len(test) != 1:
-        raise AnalysisError('deleteRule: shape changed')
-    ok, _ = g.all_paths_pass([ENTRY], lambda n: n is test[0], targets=[dele[0].id])
-    chk.ob(rid, SHEET, 'CSSStyleSheet.deleteRule', 'the namespace test dominates the deletion', ok, 'a path deletes without asking whether the namespace is in use')
-    body = ast.unparse(test[0].stmt)
-    chk.ob(rid, SHEET, 'CSSStyleSheet.deleteRule', 'refuses the last rule of a URI in use', 'rule.namespaceURI in useduris' in body and 'uris.count(rule.namespaceURI) == 1' in body and 'raise xml.dom.NoModificationAllowedErr' in body, body[:160], shape=True)
-    chk.ob(rid, SHEET, 'CSSStyleSheet.deleteRule', 'used URIs come from _getUsedURIs', 'useduris = self._getUsedURIs()' in body, '', shape=True)
+    chk.rule(rid, 'removing a namespace still used by a selector is rejected: CSSStyleSheet.deleteRule, evaluated on its syntax tree over a model sheet for every index, refuses the sole declaration of a URI that _getUsedURIs reports and leaves list, order and parent links untouched then; _getUsedURIs (evaluated as well) counts style rules at sheet level and at any depth of @media')
+    eval_delete_rule(chk, rid)
     # _getUsedURIs evaluated on a model sheet: every style rule, at any depth of @media nesting
     from sa.absint import Evaluator, Raised, Record
 
@@ -360,3 +350,82 @@ def r15i(chk, rid='R15.i'):
         ok, path = g.all_paths_pass([commits[0].id], lambda n: n in snaps, targets=[EXIT_RET])
     chk.ob(rid, SELF, 'Selector._setSelectorText', 'every commit of a new sequence is followed by the refresh of the namespace snapshot', ok,
            'a path commits the sequence without the snapshot: ' + ' -> '.join((path or [])[-4:]) + ' - after the rule is detached (deleteRule) its prefixes resolve against an empty or outdated mapping and are serialised as |name')
+
+
+
+def eval_delete_rule(chk, rid):
+    """CSSStyleSheet.deleteRule (with _getUsedURIs, resolved in the class) evaluated on its syntax tree
+    over a model sheet, for every index - negative ones included -, rule objects and foreign objects."""
+    from sa.absint import Evaluator, Obj, Raised, Record
+
+    sm = chk.repo.mod(SHEET)
+    fn = sm.get('CSSStyleSheet.deleteRule')
+    K = dict(STYLE_RULE=1, MEDIA_RULE=4, NAMESPACE_RULE=10, CHARSET_RULE=2, IMPORT_RULE=3)
+
+    class RuleM(Obj):
+        pass
+
+    class Rules(list):
+        @property
+        def length(self):
+            return len(self)
+
+    class Sheet(Record):
+        def __iter__(self):
+            return iter(self._cssRules)
+
+    def build():
+        rs = Rules([
+            RuleM(type=2, tag='charset', **K), RuleM(type=10, tag='p=u1', prefix='p', namespaceURI='u1', **K), RuleM(type=10, tag='q=u1', prefix='q', namespaceURI='u1', **K),
+            RuleM(type=10, tag='r=u2', prefix='r', namespaceURI='u2', **K), RuleM(type=10, tag='s=u3', prefix='s', namespaceURI='u3', **K),
+            RuleM(type=1, tag='style-u1', selectorList=Record(_getUsedUris=lambda: {'u1'}), **K), RuleM(type=1, tag='style-u2', selectorList=Record(_getUsedUris=lambda: {'u2'}), **K)])
+        me = Sheet(_cssRules=rs, _checkReadonly=lambda: None)
+        me.cssRules = rs
+        for r in rs:
+            r._parentStyleSheet = me
+        return me, rs
+
+    n = 0
+    bad = []
+    me0, rs0 = build()
+    args = list(range(-len(rs0) - 1, len(rs0) + 1)) + ['obj:' + r.tag for r in rs0] + ['foreign']
+    for a in args:
+        me, rs = build()
+        if isinstance(a, str) and a.startswith('obj:'):
+            arg = next(r for r in rs if r.tag == a[4:])
+            idx = rs.index(arg)
+        elif a == 'foreign':
+            arg, idx = RuleM(type=1, tag='foreign', **K), None
+        else:
+            arg, idx = a, (a if -len(rs) <= a < len(rs) else None)
+        before = [r.tag for r in rs]
+        res = Evaluator(fn, intrinsics={'CSSRule': RuleM, 'xml': Record(dom=Record(IndexSizeErr='IndexSizeErr', NoModificationAllowedErr='NoModificationAllowedErr'))},
+                        model_types=(Rules,), module=sm, cls='CSSStyleSheet').run(self=me, index=arg)
+        n += 1
+        after = [r.tag for r in rs]
+        label = f'deleteRule({a!r})'
+        if idx is None:
+            ok = isinstance(res, Raised) and res.kind == 'IndexSizeErr' and after == before
+            want = 'IndexSizeErr, nothing changed'
+        else:
+            victim = build()[1][idx].tag
+            used_sole = victim in ('r=u2',)  # u2 is used and declared once; u1 is declared twice; u3 is unused
+            if used_sole:
+                ok = isinstance(res, Raised) and res.kind == 'NoModificationAllowedErr' and after == before and all(r._parentStyleSheet is me for r in rs)
+                want = 'refused (the namespace is in use and declared once), list and order unchanged'
+            else:
+                gone = [r for r in build()[1]]
+                want_after = [t for i, t in enumerate(before) if i != (idx % len(before))]
+                removed = [r for r in [*rs0] if False]
+                ok = not isinstance(res, Raised) and after == want_after and all(r._parentStyleSheet is me for r in rs)
+                want = f'{victim} removed, the others untouched'
+        if not ok:
+            bad.append(f'{label}: result {res!r}, list {after}; prescribed: {want}')
+    chk.extra['delete_rule_cases'] = n
+    chk.ob(rid, SHEET, 'CSSStyleSheet.deleteRule', f'all {n} deletions: exactly the addressed rule goes; the sole declaration of a namespace in use is refused and leaves list and order as they were; an invalid index or a foreign rule is refused', not bad,
+           f'{len(bad)} cases differ, e.g. ' + ' | '.join(bad[:2]))
+    # the detached rule names no sheet
+    me, rs = build()
+    victim = rs[5]
+    Evaluator(fn, intrinsics={'CSSRule': RuleM, 'xml': Record(dom=Record(IndexSizeErr='IndexSizeErr', NoModificationAllowedErr='NoModificationAllowedErr'))}, model_types=(Rules,), module=sm, cls='CSSStyleSheet').run(self=me, index=5)
+    chk.ob(rid, SHEET, 'CSSStyleSheet.deleteRule', 'the removed rule names no sheet as parent', victim._parentStyleSheet is None and victim not in rs, f'parent {victim._parentStyleSheet!r}')
